@@ -85,7 +85,7 @@ def to_json(o):
     if isinstance(o, bytes):
         return {"t": "bytes", **ref_of(type(o)), "repr": repr(o)}
     if isinstance(o, QName):
-        return {"t": "qname", "text": o.text}
+        return {"t": "qname", "text": o.text, "repr": repr(o.text)}
     if type(o) is list:
         return {"t": "list", "items": [to_json(x) for x in o]}
     if type(o) is tuple:
@@ -792,8 +792,8 @@ def gen_code(rng, tier):
     yield from hand_cases()
     yield from real_fixture_cases()
     yield from bounded_cases()
-    n_worlds = 60 if tier == "quick" else 1500
-    per = 18 if tier == "quick" else 40
+    n_worlds = 150 if tier == "quick" else 1500
+    per = 20 if tier == "quick" else 40
     for _ in range(n_worlds):
         w = rand_world(rng)
         ms = [e for e in w if e["kind"] == "model"]
@@ -845,9 +845,13 @@ def features(a):
 
 
 def classify_code(a, o):
+    """bucket = outcome of exec'ing the real output | defect regions the value
+    touches | kinds of value it contains"""
     if "ok" not in o:
         return "err:" + str(o.get("err"))
-    return o["ok"]["outcome"]
+    fs = features(a)
+    region = "+".join(sorted(fs & {"nested-enum", "tuple+", "qname-esc"})) or "clean"
+    return o["ok"]["outcome"] + " | " + region
 
 
 def gen_dq(rng, tier):
@@ -1006,7 +1010,7 @@ def repair_value(a):
             return {"t": "none"}
         if t == "qname" and any(c in j["text"] for c in BAD_QNAME_CHARS):
             ids.append("C18-qname-unescaped")
-            return {"t": "qname", "text": "".join("_" if c in BAD_QNAME_CHARS else c for c in j["text"])}
+            return J(QName("".join("_" if c in BAD_QNAME_CHARS else c for c in j["text"])))
         if t == "tuple" and j["items"]:
             ids.append("C18-tuple-as-list")
             return {"t": "list", "items": [fix(x) for x in j["items"]]}
